@@ -40,3 +40,35 @@ def run(name, units, harness, vals, timeout=60, keep=False):
     finally:
         if not keep:
             scratch.remove(d)
+
+
+def search(name, units, harness, budget_s=90, max_tries=20000, keep=False):
+    """Random search for a failing input of a harness the verifier refuted without giving a trace: the harness body runs
+    natively against the real crate with pseudo-random draws (recorded).  Returns (values or None, output, tries)."""
+    import re as _re
+    d = scratch.build(name + "-replay", units, replay=True)
+    try:
+        env = dict(os.environ, CARGO_TARGET_DIR=TARGET, CARGO_NET_OFFLINE="true",
+                   RUSTFLAGS="--cfg verif_replay --cap-lints allow")
+        p = subprocess.run(["cargo", "build", "--offline", "-q", "-p", "verif_replay_bin"], cwd=d, env=env,
+                           stdout=subprocess.PIPE, stderr=subprocess.STDOUT, text=True)
+        if p.returncode != 0:
+            return None, p.stdout[-3000:], 0
+        exe = os.path.join(TARGET, "debug", "verif_replay_bin")
+        t0 = time.time()
+        n = 0
+        while n < max_tries and time.time() - t0 < budget_s:
+            n += 1
+            try:
+                r = subprocess.run([exe, harness], cwd=d, stdout=subprocess.PIPE, stderr=subprocess.STDOUT, text=True,
+                                   timeout=10, env=dict(os.environ, RUST_BACKTRACE="0", VERIF_RANDOM=str(n)))
+            except subprocess.TimeoutExpired:
+                continue
+            if r.returncode == 101 and "VERIF-VALUES:" in r.stdout:
+                m = _re.search(r"VERIF-VALUES: (.*)", r.stdout)
+                vals = [[int(x) for x in part.split(",") if x != ""] for part in m.group(1).split(";") if part != ""]
+                return vals, r.stdout[-3000:], n
+        return None, "no failing input in %d random native runs (%.0f s)" % (n, time.time() - t0), n
+    finally:
+        if not keep:
+            scratch.remove(d)
